@@ -126,6 +126,17 @@ pub unsafe fn alloc_zeroed_loop(layout: std::alloc::Layout) -> *mut u8 {
     p
 }
 
+/// stub for core::ptr::copy_nonoverlapping where the copied elements are small structs of references (the
+/// insertion sort inside `sort_by_key` in write_chrom_tree): element-wise typed copies instead of CBMC's memcpy,
+/// so that the ids the sort compares stay constants. Same contract.
+pub unsafe fn copy_typed_loop<T>(src: *const T, dst: *mut T, count: usize) {
+    let mut i = 0;
+    while i < count {
+        core::ptr::write(dst.add(i), core::ptr::read(src.add(i)));
+        i += 1;
+    }
+}
+
 /// poll a future once with a no-op waker (the bigtools encode/process futures have no real
 /// suspension point once the channel is always ready)
 pub fn poll_once<F: Future>(f: F) -> Option<F::Output> {
@@ -610,10 +621,19 @@ pub mod bbuf {
         // byte loops instead of memcpy: CBMC's memcpy (array_replace) turns every byte of the destination
         // object into a byte_extract expression that symex no longer constant-propagates
         pub fn extend_from_slice(&mut self, s: &[u8]) {
+            // 8 bytes per loop iteration (see LoopCursor::read)
+            let n = s.len();
             let mut i = 0;
-            while i < s.len() {
+            while i < n {
                 self.v.push(s[i]);
-                i += 1;
+                if i + 1 < n { self.v.push(s[i + 1]); }
+                if i + 2 < n { self.v.push(s[i + 2]); }
+                if i + 3 < n { self.v.push(s[i + 3]); }
+                if i + 4 < n { self.v.push(s[i + 4]); }
+                if i + 5 < n { self.v.push(s[i + 5]); }
+                if i + 6 < n { self.v.push(s[i + 6]); }
+                if i + 7 < n { self.v.push(s[i + 7]); }
+                i += 8;
             }
         }
         pub fn len(&self) -> usize { self.v.len() - self.pos }
@@ -678,10 +698,18 @@ pub mod bbuf {
         pub fn split_to(&mut self, at: usize) -> BytesMut {
             assert!(at <= self.len(), "[bbuf] split_to out of bounds (the real BytesMut panics too)");
             let mut front = Vec::with_capacity(at);
+            let p = self.pos;
             let mut i = 0;
             while i < at {
-                front.push(self.v[self.pos + i]);
-                i += 1;
+                front.push(self.v[p + i]);
+                if i + 1 < at { front.push(self.v[p + i + 1]); }
+                if i + 2 < at { front.push(self.v[p + i + 2]); }
+                if i + 3 < at { front.push(self.v[p + i + 3]); }
+                if i + 4 < at { front.push(self.v[p + i + 4]); }
+                if i + 5 < at { front.push(self.v[p + i + 5]); }
+                if i + 6 < at { front.push(self.v[p + i + 6]); }
+                if i + 7 < at { front.push(self.v[p + i + 7]); }
+                i += 8;
             }
             self.pos += at;
             BytesMut { v: front, pos: 0 }
@@ -731,9 +759,17 @@ pub mod hmap {
         }
         pub fn len(&self) -> usize { self.items.len() }
         pub fn clear(&mut self) { self.items.clear() }
-        pub fn get(&self, k: &K) -> Option<&V> {
-            match self.find(k) { Some(i) => Some(&self.items[i].1), None => None }
+        pub fn get<Q: ?Sized + PartialEq>(&self, k: &Q) -> Option<&V> where K: core::borrow::Borrow<Q> {
+            let mut i = 0;
+            while i < self.items.len() {
+                if self.items[i].0.borrow() == k { return Some(&self.items[i].1); }
+                i += 1;
+            }
+            None
         }
+        /// iteration order of a real HashMap is unspecified; the model iterates in REVERSE insertion order so
+        /// that code relying on insertion order is not accidentally accepted
+        pub fn iter(&self) -> Iter<'_, K, V> { Iter { map: self, left: self.items.len() } }
         pub fn insert(&mut self, k: K, v: V) -> Option<V> {
             match self.find(&k) {
                 Some(i) => Some(core::mem::replace(&mut self.items[i].1, v)),
@@ -748,6 +784,33 @@ pub mod hmap {
             match self.find(&k) {
                 Some(idx) => Entry::Occupied(OccupiedEntry { map: self, idx }),
                 None => Entry::Vacant(VacantEntry { map: self, key: k }),
+            }
+        }
+    }
+    pub struct Iter<'a, K, V> {
+        map: &'a HashMap<K, V>,
+        left: usize,
+    }
+    impl<'a, K, V> Iterator for Iter<'a, K, V> {
+        type Item = (&'a K, &'a V);
+        fn next(&mut self) -> Option<Self::Item> {
+            if self.left == 0 { return None; }
+            self.left -= 1;
+            let it = &self.map.items[self.left];
+            Some((&it.0, &it.1))
+        }
+    }
+    impl<K, V> Default for HashMap<K, V> {
+        fn default() -> Self { HashMap { items: Vec::with_capacity(4) } }
+    }
+    impl<K, V> core::fmt::Debug for HashMap<K, V> {
+        fn fmt(&self, _f: &mut core::fmt::Formatter<'_>) -> core::fmt::Result { Ok(()) }
+    }
+    impl<'a, K, V> Entry<'a, K, V> {
+        pub fn or_insert(self, default: V) -> &'a mut V {
+            match self {
+                Entry::Occupied(o) => &mut o.map.items[o.idx].1,
+                Entry::Vacant(v) => v.insert(default),
             }
         }
     }
